@@ -21,6 +21,8 @@ RULE = ("Generated runs of fit(): tiny positive / complex / density model, start
         "ObservableStatistics accessors), the CSV contents, the logger messages, the set of files written and what each loads back "
         "to must agree with the record at exactly the epochs of the run that are multiples of the period. Non-trivial = two "
         "periodic callbacks with different periods, or a range not starting at a multiple of a period, or a run cut short.")
+RULE_EXT = ('Extended as built: numpy integer indices, stop requested at an epoch end or inside a batch, a second run over the same / a fixed / the same range after clear_history, inspection after clear, up to 14 epochs, verbose evaluators, generator weighted toward several saves.')
+RULE = RULE + " " + RULE_EXT
 ASSUMPTIONS = ["observable statistics are compared with System.statistics evaluated by the recording callback under the same torch seed (their "
                "arithmetic is C13's business)", "files live in a per-case temporary directory"]
 
